@@ -36,6 +36,20 @@ A = {
  "C09-2": dict(property="C09", what="write_empty_chunks moved from global zarr config to a per-array runtime config that open_array does not see: all-fill chunks are not written, such arrays never count as complete",
                needs="a stored array with an all-fill-value chunk and a crash after its op finished", detected_by=["C09"], initially_missed_by=["C09"],
                strengthened="C09: new program whose intermediate has only all-fill chunks; new oracle 'an op all of whose tasks had finished before the crash point must not run again' (independent of what storage reports)"),
+ "C10-1": dict(property="C10", what="copy-on-write store keeps the producing op's node name; plans merged by name drop one of the two operations",
+               needs="a lazily stored array computed in the same call as its source or an array derived from it", detected_by=["C10", "C11"], initially_missed_by=["C10"],
+               strengthened="C10 alphabet gained 'store lazily, then compute the returned array together with the whole pool'"),
+ "C10-2": dict(property="C10", what="open_zarr_v3_array: create_array(overwrite=mode != 'w-') - open-or-create re-creates (wipes) an existing array",
+               needs="a materialised ancestor, an earlier completed compute, and resume=True on a later compute", detected_by=["C10", "C09", "C06"]),
+ "C13-1": dict(property="C13", what="region store advertises prod(max(n // c, 1)) tasks: partial edge chunks rounded down",
+               needs="a region ending at the array edge in a partial chunk and spanning >= 2 chunks", detected_by=["C13"], initially_missed_by=["C13"],
+               strengthened="C13 programs gained 1-d and 2-d region stores whose region ends in a partial edge chunk"),
+ "C13-2": dict(property="C13", what="parallel branch of async_map_dag sends the operation-end notification only for the last op of a generation (leaked loop variable)",
+               needs="compute_arrays_in_parallel with >= 2 ops in one generation", detected_by=["C13"]),
+ "C17-1": dict(property="C17", what="qr/svd layout check looks at the regular chunk size only and ignores a short last row chunk",
+               needs="row count not a multiple of the row chunk with a remainder smaller than the column count", detected_by=["C17"]),
+ "C17-2": dict(property="C17", what="stack decides whether to unify chunks by comparing block counts instead of chunks",
+               needs="same-shape operands with different chunkings but equal block counts, e.g. (4,2) vs (3,3)", detected_by=["C17", "C01"]),
  "C11-1": dict(property="C11", what="copy-on-write store keeps the producing op's node name: merged plans collide and one target is never written",
                needs="the same lazy source stored twice (or stored and used) in one computation", detected_by=["C11"]),
  "C11-2": dict(property="C11", what="store alignment guard with swapped operands (tc % sc): a source whose chunks divide the target's is not rechunked, tasks share target chunks",
